@@ -13,6 +13,7 @@ import types
 from pathlib import Path
 
 from ..core import Prop, Suite
+from ..suites_hist import Histories
 from ..coqlit import cbool, clist, cnat, cpair, cstr
 from .c06 import in_child, describe
 
@@ -752,9 +753,35 @@ Definition rows_model (c : bool * list (list (Z * Z)) * list (option nat)) : lis
         return repr(case)
 
 
+class FailedInputs(Histories):
+    """histories in one process in which the run of an *input* fails while a dependant is requested - the input named in
+    the signature of the dependant's run or read inside it, the dependant stored or kept in memory - and works again
+    afterwards: the dependant's value is then computed on the same chain object, nothing half-made is visible in between
+    (against Model/History.v, like the histories of C01)."""
+    name = 'failed_input_histories'
+    mix = 'plain'
+    quick_n, thorough_n = 6, 200
+
+    def corpus(self):
+        from ..suites_chain import K, P
+        out = []
+        base = {'name': 'm', 'data': {'tasks': ['@M.*'], 'a': 1}}
+        for runargs in (['up'], []):
+            for kind in ('json', 'memory'):
+                cls = [dict(K(0, 'Up', params=[P('a')]), name='up'),
+                       dict(K(1, 'Down', meta_inputs=[{'cls': 0}], data=kind), name='down', runargs=runargs),
+                       dict(K(2, 'Top', meta_inputs=[{'cls': 1}]), name='top', runargs=['down'])]
+                ops = [{'op': 'build', 'base': base}, {'op': 'fail', 'slugs': ['up']}, {'op': 'value', 'chain': 0, 'pick': 1},
+                       {'op': 'flags', 'chain': 0}, {'op': 'value', 'chain': 0, 'pick': 2}, {'op': 'value', 'chain': 0, 'pick': 1},
+                       {'op': 'fail', 'slugs': []}, {'op': 'value', 'chain': 0, 'pick': 1}, {'op': 'value', 'chain': 0, 'pick': 2},
+                       {'op': 'flags', 'chain': 0}, {'op': 'restart'}, {'op': 'build', 'base': base}, {'op': 'value', 'chain': 0, 'pick': 2}]
+                out.append(dict(classes=cls, files={}, base=base, context=None, ops=ops))
+        return out
+
+
 class C05(Prop):
     pid = 'C05'
-    suites = [Traces(), Faults(), ResumableSteps(), ResumableRows()]
+    suites = [Traces(), Faults(), ResumableSteps(), ResumableRows(), FailedInputs()]
     assumptions = ['rename/replace within one directory is atomic and a file is partial until it is closed (the operating system, '
                    'described by Crash.apply)',
                    'the theorems are about the operation sequences of Crash.trace_of; publication_traces compares them with the '
